@@ -353,8 +353,8 @@ func runC13(t *testing.T, seed uint64, planJSON []byte, tier string) (res *Resul
 			default:
 				parts = append(parts, ep.Cuts)
 			}
-			if len(parts) == 0 {
-				parts = append(parts, []int{len(stream)})
+			if len(parts) == 0 || len(parts[0]) == 0 {
+				parts = [][]int{{len(stream)}}
 			}
 			for _, cuts := range parts {
 				got = got[:0]
@@ -379,7 +379,11 @@ func runC13(t *testing.T, seed uint64, planJSON []byte, tier string) (res *Resul
 					net.DeliverChunk(s, left)
 				}
 				res.Episodes++
-				sim.State(fmt.Sprintf("n=%d len=%d g=%d cuts=%d", len(ep.Frames), len(stream), len(ep.Garbage), len(cuts)))
+				sig := fmt.Sprintf("n=%d len=%d g=%d cuts=%d first=%d", len(ep.Frames), len(stream), len(ep.Garbage), len(cuts), cuts[0])
+				if len(cuts) > 1 {
+					sig = "!" + sig
+				}
+				sim.State(sig)
 				checkC13(sim, ei, ep, cuts, s, got, spin, valid, len(stream))
 				s.Close()
 				if len(sim.Violations()) > 0 {
